@@ -259,6 +259,23 @@ static int host_parse(const char *host_s, struct xcm_addr_host *host)
     return -1;
 }
 
+/* one to five decimal digits (no sign, no white space; strtol() would
+   accept those, and wrap on values not fitting an int) */
+static bool is_port(const char *port_s)
+{
+    size_t len = strlen(port_s);
+
+    if (len == 0 || len > 5)
+	return false;
+
+    size_t i;
+    for (i = 0; i < len; i++)
+	if (port_s[i] < '0' || port_s[i] > '9')
+	    return false;
+
+    return true;
+}
+
 static int host_port_parse(const char *proto, const char *addr_s,
 			   struct xcm_addr_host *host, uint16_t *port)
 {
@@ -278,6 +295,9 @@ static int host_port_parse(const char *proto, const char *addr_s,
 	goto err_inval;
 
     const char *port_start = port_sep+PORT_SEP_LEN;
+
+    if (!is_port(port_start))
+	goto err_inval;
 
     char *end = NULL;
     int lport = strtol(port_start, &end, 10);
